@@ -61,6 +61,12 @@ CONFIGS = {
         [("startTestRun",), ("test", "a1", "addSuccess", None), ("test", "a2", "addFailure", ("x",))],
         [("startTestRun",), ("gtags", ("g",), ()), ("test", "b1", "addSkip", None), ("gtags", (), ("g",)), ("test", "b2", "addSuccess", None)],
     ],
+    # explicit times that repeat: a test whose start and end coincide, a test starting at the very
+    # instant its predecessor ended
+    "2xsametime": [
+        [("test", "e1", "addSuccess", None), ("test", "e2", "addFailure", ("x",))],
+        [("test", "f1", "addSkip", None)],
+    ],
     "2x1": [
         [("test", "a1", "addSuccess", None)],
         [("test", "b1", "addError", ("x",))],
@@ -79,6 +85,11 @@ CONFIGS = {
 TEST_TIMES = {}
 for _i, _tid in enumerate(["a1", "a2", "a3", "b1", "b2", "b3", "c1", "c2"]):
     TEST_TIMES[_tid] = (ts(2 * _i + 1), ts(2 * _i + 2))
+
+
+TEST_TIMES["e1"] = (ts(40), ts(40))
+TEST_TIMES["e2"] = (ts(40), ts(41))
+TEST_TIMES["f1"] = (ts(41), ts(41))
 
 
 class TargetFault(Exception):
@@ -313,6 +324,7 @@ BOUNDS = {
         ("2x1+fine", (2, 0)),
         ("2x2+fine", (2, 0)),
         ("2xrun", (2, 0)),
+        ("2xsametime", (2, 0)),
     ],
     "thorough": [
         ("2x1+fine", (99, 0)),
@@ -331,6 +343,7 @@ BOUNDS = {
         ("2x3", (2, 1)),
         ("2xrun", (3, 1)),
         ("2xrun+fine", (2, 0)),
+        ("2xsametime", (3, 1)),
     ],
 }
 
